@@ -189,7 +189,7 @@ fn live_ids(images: &BTreeMap<u64, Vec<Option<VDoc>>>) -> Vec<u64> {
 /// Applies an op whose outcome is known (acknowledged or cleanly rejected).
 fn apply_known(exp: &mut Expectation, r: &OpRec) {
     match (&r.op, &r.out) {
-        (Op::Add(t), Outcome::Id(id)) => {
+        (Op::Add(t), Outcome::Id(id)) | (Op::AddSparse(t), Outcome::Id(id)) => {
             let mut d = template(*t);
             d._id = *id;
             exp.images.insert(*id, vec![Some(d)]);
@@ -233,7 +233,7 @@ fn dedup(v: Vec<Option<VDoc>>) -> Vec<Option<VDoc>> {
 /// document may show the image before or after the op, in full.
 fn apply_uncertain(exp: &mut Expectation, r: &OpRec) {
     match &r.op {
-        Op::Add(t) => {
+        Op::Add(t) | Op::AddSparse(t) => {
             let mut d = template(*t);
             d._id = r.next_id;
             let c = exp.images.entry(r.next_id).or_insert_with(|| vec![None]);
